@@ -42,6 +42,12 @@ STRATA = {
     "selectors": (3200, 70000),
     "big_codes": (1000, 25000),
 }
+# functions that must leave their arguments untouched (vf.core.PurityMonitor; '!' = the object itself is watched too)
+PURE = [
+    "biotite.sequence.align.kmeralphabet:KmerAlphabet.create_kmers",
+    "biotite.sequence.align.kmeralphabet:KmerAlphabet.fuse",
+    "biotite.sequence.align.kmeralphabet:KmerAlphabet.split",
+]
 REQUIRED_ORACLES = [
     "create_kmers_vs_naive", "get_kmers_vs_model", "count_vs_model", "lookup_vs_model",
     "iteration_vs_model", "eq_vs_model", "pickle_roundtrip", "match_vs_naive",
